@@ -2,6 +2,9 @@
 
 MC     T1: ABNF.tla (the RFC grammar as data) and Syntax.tla (the parser) accept the
        same strings, on the seed lists and a seeded sample of this run's candidates.
+GEN    Deriv.tla: the derivation machine of ABNF.tla (expand the left-most non-terminal):
+       every sentence up to a length, random derivations of longer ones; T3 (each derived
+       sentence is accepted by Syntax!Parse) checked by TLC; every sentence is compiled.
 
 TRACE  candidate-valid query texts (seed list, the repository's test queries,
        seeded QueryGen output at three spelling levels: blank space in every S
@@ -49,6 +52,34 @@ def run(chk: core.Check, tier: str, seed: int) -> None:
     n = 12000 if tier == "quick" else 250000
     cands = list(dict.fromkeys(corpus.SEEDS + EXTRA + corpus.repo_test_queries() + corpus.literal_queries() + corpus.skeletons(rng) + corpus.valid_candidates(rng, n)))
     common.t1_check(chk, [t for t in (corpus.SEEDS + EXTRA + rng.sample(cands, 500 if tier == "quick" else 15000)) if len(t) <= 60], "c03_t1")
+    # GEN: the derivation machine of the grammar itself (Deriv.tla over ABNF.tla): every sentence of length <= N,
+    # and random derivations of longer ones; T3 (each is accepted by Syntax!Parse) is checked by TLC on the way
+    import json as _json  # noqa: PLC0415
+    derived = set()
+    for maxlen, maxrep, sim in ((6 if tier == "quick" else 8, 1, None), (18, 2, 150 if tier == "quick" else 4000)):
+        cfg = (f"SPECIFICATION DSpec\nCONSTANTS\n  MaxLen = {maxlen}\n  MaxRep = {maxrep}\nINVARIANT T3\nINVARIANT Export\n"
+               + ("" if sim else "VIEW DView\n") + "CHECK_DEADLOCK FALSE\n")
+        res = core.run_tlc("Deriv", cfg, name=f"deriv_{maxlen}", heap="12g", timeout=3000, simulate=(f"num={sim}" if sim else None),
+                           depth=(300 if sim else None), seed=(seed if sim else None), workers=(8 if sim else core.NCPU))
+        if sim:
+            if "Error:" in res.out and "T3" in res.out:
+                raise core.MachineryError("T3 fails: a derived sentence is rejected by Syntax!Parse:\n" + res.out[-1500:])
+        else:
+            core.require_ok(res, "Deriv")
+        chk.add_tlc(f"Deriv.tla (derivation machine of ABNF.tla) MaxLen={maxlen} MaxRep={maxrep}" +
+                    (f" simulate num={sim}/worker" if sim else " exhaustive") + ": T3 every derived sentence is accepted by Syntax!Parse", res)
+        for line in res.out.splitlines():
+            line = line.strip()
+            if line.startswith('"GEN '):
+                derived.add(core.dec_text(_json.loads(_json.loads(line)[4:])))
+    if len(derived) < 500:
+        raise core.MachineryError(f"only {len(derived)} derived sentences")
+    chk.notes["derived_sentences"] = len(derived)
+    chk.sample({"derived_sentence": max(derived, key=len)})
+    dl = sorted(derived)
+    if tier == "quick" and len(dl) > 3000:
+        dl = sorted(dl, key=len)[-400:] + rng.sample(dl, 2600)
+    cands = list(dict.fromkeys(cands + dl))
     recs = [impl.rec_compile(jp, q, env=(fresh if k % 7 == 0 else None)) for k, q in enumerate(cands)]
     del keep
     for r in recs:
